@@ -148,4 +148,42 @@ theorem bjj_congr (P : List Nat → Nat) (H3 : Nat → Nat → Nat → Nat) (b b
   unfold bjj stateConsistent includedInClaimsTree
   rw [h1, h2, h3, h4, h5, h6, h7, h8, h9, h10, h11, h12]
 
+/-! ### the DID resolver's document and the status registry (model M6b) -/
+section Lookups
+open Gsp.Resolve
+
+/-- the verdict on a signature proof is the same for the resolver's document and for that document stripped of
+    everything but its state entries: verification methods of other types have no say -/
+theorem bjj_verdict_ignores_other_methods (P : List Nat → Nat) (H3 : Nat → Nat → Nat → Nat) (b : BjjBundle) (vms : List VM) :
+    bjj P H3 { b with resolved := resolvedOf (.ok (vms.filter fun v => v.tp = stateInfoType)) } =
+      bjj P H3 { b with resolved := resolvedOf (.ok vms) } := by
+  rw [Gsp.Props.C08.other_methods_irrelevant]
+
+/-- a document without a state entry is a rejection -/
+theorem bjj_no_state_entry_rejected (P : List Nat → Nat) (H3 : Nat → Nat → Nat → Nat) (b : BjjBundle) (vms : List VM)
+    (hno : ∀ w ∈ vms, w.tp ≠ stateInfoType) (hr : b.resolved = resolvedOf (.ok vms)) : bjj P H3 b ≠ .ok := by
+  have h0 : stateInfo vms = none := by
+    have := stateInfo_append_other [] vms hno
+    simpa [stateInfo] using this
+  have : b.resolved = .noStateInfo := by rw [hr]; simp [resolvedOf, h0]
+  exact bjj_resolver_failure_rejected P H3 b (Or.inr this)
+
+/-- the auth claim's status is asked of the resolver registered under exactly the status entry's type in the registry in
+    force; a type the verifier's own registry does not hold is an error — the process-wide default registry is not consulted — and an
+    error of the lookup is a rejection of the proof -/
+theorem bjj_status_type_not_in_own_registry_rejected (P : List Nat → Nat) (H3 : Nat → Nat → Nat → Nat) (b : BjjBundle)
+    (t : String) (pre : List Op) (answers : Nat → Except String StatusAnswer)
+    (hnone : ∀ o t' res, Op.register o t' res ∈ pre → ¬ (o = true ∧ t' = t))
+    (hans : b.statusAnswer = match (run {} (pre ++ [.resolve true t])).getLast? with
+        | some (some (some res)) => answers res
+        | _ => .error "not-registered") :
+    bjj P H3 b ≠ .ok := by
+  rw [Gsp.Props.C09.unregistered_type_is_error true t pre hnone] at hans
+  simp at hans
+  intro h
+  obtain ⟨_, _, _, _, _, _, _, hst⟩ := bjj_sound P H3 b h
+  rw [hans] at hst
+  simp [status] at hst
+end Lookups
+
 end Gsp.Props.C07
